@@ -248,6 +248,14 @@ func declIface() {
 
 // loadObj reads a whole object of type t at heap reference ref (fields under heap names H:<T><path>).
 func (e *Exec) loadObj(s *State, t types.Type, ref *Node, rootT types.Type, prefix string) Value {
+	v := e.loadObj0(s, t, ref, rootT, prefix)
+	if !ref.bound {
+		e.constrainShape(s, v)
+	}
+	return v
+}
+
+func (e *Exec) loadObj0(s *State, t types.Type, ref *Node, rootT types.Type, prefix string) Value {
 	return e.mode.build(t, func(li leafInfo) *Node {
 		name := heapNameObj(rootT, prefix+li.Path)
 		h := e.heap(s, name, arraySort(RefSort, li.Sort))
